@@ -34,11 +34,11 @@ def text_bytes(s):
     return list(s.encode("utf-8"))
 
 
-def chunk(rng, texts=OUT_TEXTS, methods=("w", "wl", "u", "f")):
+def chunk(rng, texts=OUT_TEXTS, methods=("w", "wl", "u", "f", "fc", "uc")):
     return {"m": rng.choice(methods), "t": text_bytes(rng.choice(texts))}
 
 
-def handler_script(rng, p_out, p_prompt, texts=OUT_TEXTS, methods=("w", "wl", "u", "f")):
+def handler_script(rng, p_out, p_prompt, texts=OUT_TEXTS, methods=("w", "wl", "u", "f", "fc", "uc")):
     hs = {}
     if rng.random() < p_out:
         hs["chunks"] = [chunk(rng, texts, methods) for _ in range(rng.randint(1, 3))]
@@ -69,7 +69,7 @@ def gen_session(rng, sid, prof):
         cfg["ctor"] = rng.choice(["default", "arrays", "arrays", "new"])
     enter_forms = prof.get("enter_forms", [[13]])
     texts = prof.get("texts", OUT_TEXTS)
-    methods = prof.get("methods", ("w", "wl", "u", "f"))
+    methods = prof.get("methods", ("w", "wl", "u", "f", "fc", "uc"))
     steps = []
     lo, hi = prof.get("steps", (10, 60))
     n = rng.randint(lo, hi)
